@@ -240,6 +240,9 @@ def old_rules(run, model, rule="C08.old"):
 
 def run(run, model):
     run.do(gates.c08_place, model)
+    run.do(gates.c01_gate, model, "C08.after-pre-gate")
+    from . import twins
+    run.do(twins.helper_dispatch, model, "C08.capture-dispatch", "C08.capture-sync-reject")
     run.do(gates.c01_read_live, model, "C08.read-live", ("SNAP",))
     run.do(capture_helpers, model)
     run.do(define_tables, model)
